@@ -60,7 +60,9 @@ results="{"
 sep=""
 if [ $applies = yes ] && git -C /repo diff --quiet && git -C /repo apply $sd/patch.diff; then
   for p in "${props[@]}"; do
-    out=$(cd /verif && ./check.sh $p quick 2>&1); rc=$?
+    # same command as ./check.sh <p> quick, but the evidence of a run on a changed tree must not
+    # replace the committed evidence of the unchanged tree
+    out=$(cd /verif && /verif/bin/govc -repo /repo -prop $p -tier quick -work /verif/work -evidence /tmp/seedcheck_evidence -verif /verif 2>&1); rc=$?
     viol=$(echo "$out" | grep -c "^VIOLATION")
     first=$(echo "$out" | grep "^VIOLATION" | head -3 | sed -E 's/.*obligation=//; s/ no-failing-input-found//' | tr '\n' ';' | sed 's/"/\\"/g')
     results="$results$sep\"$p\": {\"exit\": $rc, \"violations\": $viol, \"obligations\": \"$first\"}"
